@@ -688,9 +688,10 @@ class Progress(JupyterMixin, RenderHook):
                 self.console.show_cursor(True)
                 self._disable_redirect_io()
                 self.console.pop_render_hook()
-        if self._refresh_thread is not None:
-            self._refresh_thread.join()
+            refresh_thread = self._refresh_thread
             self._refresh_thread = None
+        if refresh_thread is not None:
+            refresh_thread.join()
         if self.transient:
             self.console.control(self._live_render.restore_cursor())
         if self.ipy_widget is not None and self.transient:  # pragma: no cover
